@@ -5,8 +5,10 @@ Mirrors, check by check and in the code's order:
   forml/flow/_graph/port.py    Subscription.__new__ / _PORTS, Publishable.publish / republish
   forml/flow/_graph/atomic.py  Node.__init__ / _publish, Worker._publish / train / fork / trained / derived,
                                Future.__getitem__.register / _collapse / _publish / subscribed
-  forml/flow/_graph/span.py    Traversal.subscribers / mappers / tail (exists, scan) / each, Segment.__new__
+  forml/flow/_graph/span.py    Traversal.subscribers / mappers / tail (exists, scan) / each / copy, Segment.__new__ /
+                               extend / copy
   forml/flow/_suite/clean.py   Validator (via Segment.accept)
+  forml/flow/_suite/assembly.py Trunk.__new__ / extend, Composition.__new__
 
 Modelling decisions
   * a node's identity (`uid`, Python object identity) is its index in `G.nodes`; group ids are a counter;
@@ -110,12 +112,16 @@ inductive Err where
   | futures             -- Validator: 'Future nodes in segment'
   | recursion           -- RecursionError (registration cycle among futures)
   | noNode              -- the op names a node that does not exist (never generated; not a forml error)
+  | unpack              -- ValueError: `(publisher,) = tail._input` of `Segment.copy` with several registrations
+  | noPath              -- KeyError: `copies[tail]` of `Segment.copy` when no path reaches the unwrapped tail
+  | aliased             -- not a forml error: the model abstains (`Node.__eq__` aliasing inside `Traversal.copy`)
   deriving DecidableEq, Repr, Inhabited
 
 inductive Res where
   | ok
   | node (n : Nat)      -- a new node / the traced tail
   | err (e : Err)
+  | segs (l : List (Nat × Nat))  -- the (head, tail) pairs of the segments built (copy, trunk, composition)
   deriving DecidableEq, Repr, Inhabited
 
 def Res.isErr : Res → Bool
@@ -445,6 +451,268 @@ def validate (g : G) (h : Nat) (t : Option Nat) : Res :=
     if seen.any (fun n => isFuture g n && !eqNode g n tl) then .err .futures else .node tl
   | r => r
 
+/-! ### span.py : Segment.extend / Segment.copy -/
+
+/-- `Traversal(p).tail()` (no expected tail): the unique leaf of the mapper flow below `p` -/
+def autoTail (g : G) (p : Nat) : Res :=
+  match scan (fuelOf g) g p [p] with
+  | .ok [l] => .node (l.headD p)
+  | .ok _ => .err .ambiguous
+  | .error e => .err e
+
+/-- the wiring core of `Segment(h, tl).extend(right)`: `right._head[0].subscribe(Segment(h, tl).publisher)`
+(= `tl[0].publisher`), then `Segment(h, newTail)`.  When the final tracing refuses the result the subscription
+stays (the code has no roll-back there). -/
+def segExtend (g : G) (h tl rh newTail : Nat) : G × Res :=
+  match subscribe g rh 0 tl 0 with
+  | (g1, .err e) => (g1, .err e)
+  | (g1, _) => (g1, segment g1 h (some newTail))
+
+/-- `Segment(h, t).extend(right, tail)`: `right` is a segment `(rh, rt)` (a bare node `r` is `Segment(r)`, i.e.
+`(r, none)`); without `right` the segment is retraced to the explicit `tail` or to its physical tail. -/
+def extend (g : G) (h : Nat) (t : Option Nat) (right : Option (Nat × Option Nat)) (xt : Option Nat) : G × Res :=
+  match segment g h t with
+  | .node tl =>
+    match right with
+    | some (rh, rt) =>
+      match segment g rh rt with
+      | .node rtl => segExtend g h tl rh (xt.getD rtl)
+      | r => (g, r)
+    | none =>
+      match xt with
+      | some x => (g, segment g h (some x))
+      | none =>
+        match autoTail g tl with
+        | .node x => (g, segment g h (some x))
+        | r => (g, r)
+  | r => (g, r)
+
+/-- the loop of `Segment.copy`: a dangling `Future` tail (not the head) stands for the publisher registered on it -/
+def unwrapTail : Nat → G → Nat → Nat → Except Err Nat
+  | 0, _, _, _ => .error .recursion
+  | fuel + 1, g, h, t =>
+    if isFuture g t ∧ t ≠ h then
+      match g.regs.filter (fun r => r.fut = t) with
+      | [] => .ok t
+      | [r] => unwrapTail fuel g h r.pub
+      | _ => .error .unpack
+    else .ok t
+
+/-- `segments` of `Traversal.copy(tail)`: every mapper path from the pivot to the tail (its `members`, newest first) -/
+def paths : Nat → G → Nat → Nat → List Nat → Except Err (List (List Nat))
+  | 0, _, _, _, _ => .error .recursion
+  | fuel + 1, g, tail, pivot, members =>
+    if eqNode g pivot tail then .ok [members]
+    else (mappers g pivot (some tail)).foldl
+      (fun (acc : Except Err (List (List Nat))) n => match acc with
+        | .ok ls =>
+          if memNode g n members then .error .cyclic
+          else match paths fuel g tail n (n :: members) with
+            | .ok ls' => .ok (ls ++ ls')
+            | .error e => .error e
+        | e => e)
+      (.ok [])
+
+/-- the nodes `Traversal.copy` forks: the head (bootstrap) and every member of a path, in index order -/
+def regionOf (g : G) (h : Nat) (ps : List (List Nat)) : List Nat :=
+  (List.range g.nodes.length).filter (fun n => n == h || ps.any (fun m => m.contains n))
+
+/-- the subscriptions `Traversal.copy` replays: per path, the edges between two of its members (first occurrence
+only: the `seen` set), in path order and port order -/
+def copyEdges (g : G) (ps : List (List Nat)) : List Edge :=
+  (ps.flatMap (fun m => g.edges.filter (fun e => m.contains e.pub && m.contains e.sub.node))).eraseDups
+
+/-- no two different nodes of the list compare equal (`Node.__eq__`), so that `set`/`dict` look-ups among them
+behave as identity look-ups -/
+def aliasFree (g : G) (us : List Nat) : Bool :=
+  us.all (fun a => us.all (fun b => a == b || !eqNode g a b))
+
+/-- the fork of region member `n` (new nodes are appended in region order) -/
+def copyIdx (g : G) (region : List Nat) (n : Nat) : Nat := g.nodes.length + region.idxOf n
+
+def copyEdge (g : G) (region : List Nat) (e : Edge) : Edge :=
+  ⟨copyIdx g region e.pub, e.out, ⟨copyIdx g region e.sub.node, e.sub.port⟩⟩
+
+/-- `Segment(h, t).copy()`: trace, unwrap a dangling `Future` tail, `Traversal(h).copy(tail)` (fork every node
+on a mapper path from head to tail - same group, same shape - and replay the subscriptions between members of one
+path through the ordinary `subscribe`, which can only refuse with `Double subscription`), `Segment(copy of head,
+copy of tail)`.
+Deviations: every check is made before the first fork is created (the code forks and subscribes lazily, so a
+refused copy leaves forks behind in the worker groups: finding C11-F4); the final re-tracing of the copy is
+reduced to its shape check; when two different nodes involved compare equal (`Node.__eq__` aliasing inside the
+`copies` dict / `seen` set) the model abstains (`Err.aliased`). -/
+def copy (g : G) (h : Nat) (t : Option Nat) : G × Res :=
+  match segment g h t with
+  | .node tl0 =>
+    match unwrapTail (fuelOf g) g h tl0 with
+    | .error e => (g, .err e)
+    | .ok tl =>
+      match paths (fuelOf g) g tl h [h] with
+      | .error e => (g, .err e)
+      | .ok ps =>
+        let region := regionOf g h ps
+        let es := copyEdges g ps
+        if !aliasFree g (region ++ (g.edges.filter (fun e => region.contains e.pub)).map (·.sub.node)) then
+          (g, .err .aliased)
+        else if !(decide (es.map (·.sub)).Nodup) then (g, .err .double)
+        else if !region.contains tl then (g, .err .noPath)
+        else if (g.nodes.getD tl default).szout > 1 then (g, .err .simpleTail)
+        else
+          ({ g with nodes := g.nodes ++ region.map (fun n => g.nodes.getD n default),
+                    edges := g.edges ++ es.map (copyEdge g region),
+                    ports := g.ports ++ es.map (fun e => (copyEdge g region e).sub) },
+           .segs [(copyIdx g region h, copyIdx g region tl)])
+  | r => (g, r)
+
+/-! ### assembly.py : Trunk, Composition -/
+
+/-- a segment given as `(head, tail?)`, resolved to `(head, tail)` by `Segment(head, tail)` -/
+def resolveSeg (g : G) (s : Nat × Option Nat) : Except Err (Nat × Nat) :=
+  match segment g s.1 s.2 with
+  | .node tl => .ok (s.1, tl)
+  | .err e => .error e
+  | _ => .error .noNode
+
+def resolveOpt (g : G) : Option (Nat × Option Nat) → Except Err (Option (Nat × Nat))
+  | none => .ok none
+  | some s => match resolveSeg g s with
+    | .ok p => .ok (some p)
+    | .error e => .error e
+
+/-- `init(mode)` of `Trunk.__new__` for a missing mode: `Segment(Future())` -/
+def trunkMode (g : G) : Option (Nat × Nat) → G × (Nat × Nat)
+  | some p => (g, p)
+  | none => ({ g with nodes := g.nodes ++ [⟨.future, 1, 1⟩] }, (g.nodes.length, g.nodes.length))
+
+/-- `Trunk(apply, train, label)`: the given segments are traced first (in that order), a missing mode becomes a
+fresh unconnected `Future` -/
+def trunk (g : G) (a t l : Option (Nat × Option Nat)) : G × Res :=
+  match resolveOpt g a with
+  | .error e => (g, .err e)
+  | .ok ra =>
+    match resolveOpt g t with
+    | .error e => (g, .err e)
+    | .ok rt =>
+      match resolveOpt g l with
+      | .error e => (g, .err e)
+      | .ok rl =>
+        let (g1, pa) := trunkMode g ra
+        let (g2, pt) := trunkMode g1 rt
+        let (g3, pl) := trunkMode g2 rl
+        (g3, .segs [pa, pt, pl])
+
+/-- a trunk whose three segments are resolved -/
+structure Trunk3 where
+  apply : Nat × Nat
+  train : Nat × Nat
+  label : Nat × Nat
+  deriving DecidableEq, Repr
+
+/-- a trunk given by three segment descriptions -/
+structure TrunkSpec where
+  apply : Nat × Option Nat
+  train : Nat × Option Nat
+  label : Nat × Option Nat
+  deriving DecidableEq, Repr
+
+def resolveTrunk (g : G) (s : TrunkSpec) : Except Err Trunk3 :=
+  match resolveSeg g s.apply with
+  | .error e => .error e
+  | .ok a =>
+    match resolveSeg g s.train with
+    | .error e => .error e
+    | .ok t =>
+      match resolveSeg g s.label with
+      | .error e => .error e
+      | .ok l => .ok ⟨a, t, l⟩
+
+/-- one mode of `Trunk.extend`: `self.<mode>.extend(right) if right else self.<mode>` -/
+def modeExtend (g : G) (c : Nat × Nat) : Option (Nat × Nat) → G × Except Err (Nat × Nat)
+  | none => (g, .ok c)
+  | some r =>
+    match segExtend g c.1 c.2 r.1 r.2 with
+    | (g1, .node tl) => (g1, .ok (c.1, tl))
+    | (g1, .err e) => (g1, .error e)
+    | (g1, _) => (g1, .error .noNode)
+
+/-- `Trunk.extend(apply, train, label)` on resolved segments: the three modes one after the other, no roll-back of
+an earlier mode when a later one is refused (finding C11-F3) -/
+def trunkExtend (g : G) (c : Trunk3) (ea et el : Option (Nat × Nat)) : G × Except Err Trunk3 :=
+  match modeExtend g c.apply ea with
+  | (g1, .error e) => (g1, .error e)
+  | (g1, .ok a) =>
+    match modeExtend g1 c.train et with
+    | (g2, .error e) => (g2, .error e)
+    | (g2, .ok t) =>
+      match modeExtend g2 c.label el with
+      | (g3, .error e) => (g3, .error e)
+      | (g3, .ok l) => (g3, .ok ⟨a, t, l⟩)
+
+def Trunk3.res (c : Trunk3) : Res := .segs [c.apply, c.train, c.label]
+
+/-- `Trunk(base).extend(apply, train, label)`: every segment involved is traced first -/
+def textend (g : G) (b : TrunkSpec) (ea et el : Option (Nat × Option Nat)) : G × Res :=
+  match resolveTrunk g b with
+  | .error e => (g, .err e)
+  | .ok c =>
+    match resolveOpt g ea with
+    | .error e => (g, .err e)
+    | .ok ra =>
+      match resolveOpt g et with
+      | .error e => (g, .err e)
+      | .ok rt =>
+        match resolveOpt g el with
+        | .error e => (g, .err e)
+        | .ok rl =>
+          match trunkExtend g c ra rt rl with
+          | (g1, .ok c1) => (g1, c1.res)
+          | (g1, .error e) => (g1, .err e)
+
+/-- `Segment(h, tl).extend()`: retrace to the physical tail -/
+def retrace (g : G) (s : Nat × Nat) : Res :=
+  match autoTail g s.2 with
+  | .node x => segment g s.1 (some x)
+  | r => r
+
+/-- `Segment(h, tl).accept(clean.Validator())`: refused when a visited node is a `Future` (other than the tail) -/
+def accept (g : G) (h tl : Nat) : Option Err :=
+  if (visit (g.nodes.length * g.nodes.length + 1) g tl h []).any (fun n => isFuture g n && !eqNode g n tl)
+  then some .futures else none
+
+/-- the validation of `Composition.__new__`: apply path retraced and validated, then the train path -/
+def finalize (g : G) (c : Trunk3) : Res :=
+  match retrace g c.apply with
+  | .node at_ =>
+    match accept g c.apply.1 at_ with
+    | some e => .err e
+    | none =>
+      match retrace g c.train with
+      | .node tt =>
+        match accept g c.train.1 tt with
+        | some e => .err e
+        | none => .segs [(c.apply.1, at_), (c.train.1, tt)]
+      | r => r
+  | r => r
+
+/-- `functools.reduce(lambda c, s: c.extend(*s.expand()), others, composed)`, then the validation -/
+def composeLoop (g : G) (c : Trunk3) : List TrunkSpec → G × Res
+  | [] => (g, finalize g c)
+  | s :: rest =>
+    match resolveTrunk g s with
+    | .error e => (g, .err e)
+    | .ok r =>
+      match trunkExtend g c (some r.apply) (some r.train) (some r.label) with
+      | (g1, .ok c1) => composeLoop g1 c1 rest
+      | (g1, .error e) => (g1, .err e)
+
+/-- `flow.Composition(first, *others)` where every operator expands to the trunk described -/
+def compose (g : G) : List TrunkSpec → G × Res
+  | [] => (g, .err .noNode)
+  | s :: rest =>
+    match resolveTrunk g s with
+    | .error e => (g, .err e)
+    | .ok c => composeLoop g c rest
+
 /-! ### the state machine -/
 
 inductive Op where
@@ -459,6 +727,16 @@ inductive Op where
   | train (n tp ti lp li : Nat)
   | segment (h : Nat) (t : Option Nat)
   | validate (h : Nat) (t : Option Nat)
+  /-- `Segment(h, t).extend(right, tail)` -/
+  | extend (h : Nat) (t : Option Nat) (right : Option (Nat × Option Nat)) (xt : Option Nat)
+  /-- `Segment(h, t).copy()` -/
+  | copy (h : Nat) (t : Option Nat)
+  /-- `Trunk(apply, train, label)` -/
+  | trunk (a t l : Option (Nat × Option Nat))
+  /-- `Trunk(base).extend(apply, train, label)` -/
+  | textend (b : TrunkSpec) (a t l : Option (Nat × Option Nat))
+  /-- `flow.Composition(first, *others)`, every operator expanding to the trunk described -/
+  | compose (ts : List TrunkSpec)
   deriving DecidableEq, Repr
 
 def step (g : G) : Op → G × Res
@@ -470,6 +748,11 @@ def step (g : G) : Op → G × Res
   | .train n tp ti lp li => train g n tp ti lp li
   | .segment h t => (g, segment g h t)
   | .validate h t => (g, validate g h t)
+  | .extend h t right xt => extend g h t right xt
+  | .copy h t => copy g h t
+  | .trunk a t l => trunk g a t l
+  | .textend b a t l => textend g b a t l
+  | .compose ts => compose g ts
 
 def run (g : G) : List Op → G
   | [] => g
